@@ -192,8 +192,9 @@ def match_at(ctx):
         nx = [i for i, c in enumerate(cs) if c[0] == "next" and i > m_i]
         _rec(d, "first-result-only", len(nx) == 1, "exactly the first result of the top-level iterator decides (next() called %d times)" % len(nx), loc)
         before = cs[:m_i]
-        _rec(d, "paren-count-1", any(c[0] == "set_paren_count" and c[1][1] == "1" for c in before), "paren count must be set to 1 before matching", loc)
-        _rec(d, "start-0", any(c[0] == "set_paren_start" and c[1][1:] == ["0", "a2"] for c in before), "start of group 0 must be set to i before matching", loc)
+        st0 = [(strip_ver(_sh(show(e[1]))), strip_ver(_sh(render(e[2]))), e[3]) for e in p.effects if e[0] == "store"]
+        _rec(d, "paren-count-1", any(c[0] == "set_paren_count" and c[1][1] == "1" for c in before) or any(pl == "a1.state.capture_state.paren_count" and v == "1" and blk <= cs[m_i][2] for pl, v, blk in st0), "paren count must be set to 1 before matching", loc)
+        _rec(d, "start-0", any(c[0] in ("set_paren_start", "CaptureState::set_paren_start") and c[1][1:] == ["0", "a2"] and c[1][0] in ("a1", "a1.state.capture_state") for c in before), "start of group 0 must be set to i before matching", loc)
         st = [(strip_ver(_sh(show(e[1]))), strip_ver(_sh(render(e[2]))), e[3]) for e in p.effects if e[0] == "store"]
         hasbr = "!eq(bitand(1, a1.program.optimization_flags), 0)" in gs
         if hasbr:
@@ -448,7 +449,12 @@ def clear_beyond(ctx):
     loops = b.natural_loops()
     if len(loops) != 2:
         return [bad("loops", "clear_captured_groups_beyond must have one loop per array pair (found %d)" % len(loops), b.loc())]
-    pairs = {"capture_state_startn": ("set_capture_state_endn", "startn_len"), "start_backref": ("set_end_backref", "start_backref_len")}
+    # the two array pairs, each reachable through its accessors or (the thin private ones are spliced in, and an edit
+    # may read the fields under one borrow) directly
+    pairs = {
+        "capture_state_startn": {"start": "a1.state.capture_state.startn", "end": "a1.state.capture_state.endn", "get": "capture_state_startn", "set": "set_capture_state_endn", "len": "startn_len"},
+        "start_backref": {"start": "a1.state.start_backref", "end": "a1.state.end_backref", "get": "start_backref", "set": "set_end_backref", "len": "start_backref_len"},
+    }
     ranges = set()
     for p in ctx.walk(b).paths:
         if p.end == "return":
@@ -460,33 +466,43 @@ def clear_beyond(ctx):
             if m:
                 ranges.add(m.group(1))
     seen = set()
+    from ..lockstep import Lockstep
     for h in loops:
-        for p in ctx.walk(b, start_bb=h).paths:
+        # one turn of the loop in turn-indexed form: whatever drives the loop (a range of indices, the array itself,
+        # enumerate), entry number k is `<array>[k]`
+        for p in Lockstep(ctx, b, h).paths(ctx):
             gs, r = summarize(p)
             gs = [_sh(strip_ver(g)) for g in gs]
             el = [g for g in gs if g.endswith("=Some") and g.startswith("variant(next(")]
             if not el or not p.end.startswith("loop"):
                 continue
-            I = el[0][len("variant("):-len(")=Some")] + " as Some.0"
+            drv = el[0][len("variant(next("):-len("))=Some")]
+            I = "k"
             cs = _calls(p)
-            getters = [c for c in cs if c[0] in pairs]
-            if len(getters) != 1:
+            stores = [(_sh(strip_ver(render(e[1]))), _sh(strip_ver(render(e[2])))) for e in p.effects if e[0] == "store"]
+            hit = None
+            for g, pr in pairs.items():
+                forms = ("%s(a1, %s)" % (pr["get"], I), "%s[%s]" % (pr["start"], I))
+                st_ = [f for f in forms if any(f in x for x in gs)]
+                if st_:
+                    hit = (g, pr, st_[0])
+            if hit is None:
                 continue
-            g = getters[0][0]
-            setter, lenfn = pairs[g]
+            g, pr, START = hit
             seen.add(g)
             loc = b.loc(p.blocks[-1])
-            START = "%s(a1, %s)" % (g, I)
             cond_ge = "!lt(%s, Option::Some{0: a2})" % START
             cond_lt = "lt(%s, Option::Some{0: a2})" % START
-            sets = [c for c in cs if c[0] == setter]
+            starts = ("%s(a1, %s)" % (pr["get"], I), "%s[%s]" % (pr["start"], I))
+            sets = [c[1] for c in cs if c[0] == pr["set"]] + [["a1", I, v] for pl, v in stores if pl == "%s[%s]" % (pr["end"], I)]
+            other = [pl for pl, v in stores if pl != "%s[%s]" % (pr["end"], I)]
             if cond_ge in gs:
-                _rec(d, g + "|at-or-after", len(sets) == 1 and sets[0][1] == ["a1", I, START], "a group starting at or after pos must get end := start; found %s" % [c[1] for c in sets], loc)
+                _rec(d, g + "|at-or-after", len(sets) == 1 and sets[0][:2] == ["a1", I] and sets[0][2] in starts and not other, "a group starting at or after pos must get end := start; found %s %s" % (sets, other), loc)
             elif cond_lt in gs:
-                _rec(d, g + "|before", not sets, "a group starting before pos must be left alone", loc)
+                _rec(d, g + "|before", not sets and not other, "a group starting before pos must be left alone", loc)
             else:
                 _rec(d, g + "|comparison", False, "the test must be start >= Some(pos) (groups starting exactly at pos are emptied too); guards %s" % [x for x in gs if "Option::Some{0: a2}" in x], loc)
-            _rec(d, g + "|range", ("next(Range::Range{start: 0, end: %s(a1)})" % lenfn) in ranges, "must range over all %s entries from 0 (0..%s())" % (g, lenfn), loc)
+            _rec(d, g + "|range", drv in ("<0..len(%s)>" % pr["start"], "<0..%s(a1)>" % pr["len"]), "must range over all %s entries from 0; the loop runs over %s" % (g, drv), loc)
     for g in pairs:
         if g not in seen:
             d[g + "|missing"] = [False, "clear_captured_groups_beyond no longer treats %s" % g, b.loc()]
